@@ -183,10 +183,14 @@ MmapAll(sr, br, D, refs) ==
             ELSE MmapAll(sr, br, D, Tail(refs))
 
 \* ChunkDiskMapper.Truncate(minFile)
+\* files below minFile go, except the file being written; when no file has been cut in this process (after a restart) and
+\* every file would go, the newest one is kept (the sequence of the next file is derived from the files on disk)
+CdmTruncate1(D, rm, nonEmpty) ==
+  [D EXCEPT !.files = DelF(@, IF D.curF = 0 /\ rm # {} /\ rm = DOMAIN D.files THEN rm \ {SetMax(rm)} ELSE rm),
+            !.cutNext = (@ \/ nonEmpty)]
 CdmTruncate(D, minFile) ==
-  LET rm == {f \in DOMAIN D.files : f < minFile /\ (D.curF = 0 \/ f < D.curF)}
-      nonEmpty == D.curF # 0 /\ D.curF \in DOMAIN D.files /\ Len(D.files[D.curF]) > 0
-  IN [D EXCEPT !.files = DelF(@, rm), !.cutNext = (@ \/ nonEmpty)]
+  CdmTruncate1(D, {f \in DOMAIN D.files : f < minFile /\ (D.curF = 0 \/ f < D.curF)},
+               D.curF # 0 /\ D.curF \in DOMAIN D.files /\ Len(D.files[D.curF]) > 0)
 
 -----------------------------------------------------------------------------
 (* Head.gc: stripeSeries.gc(mint, minOOOMmapRef) over all memSeries of the hash maps *)
